@@ -50,6 +50,11 @@ class CoopLock:
         sched = _ACTIVE[0]
         if sched is not None:
             sched.progress()
+            # the yield point that follows the release of a lock is a sync point: whatever the critical section was meant to
+            # publish atomically is now visible to the other threads
+            tid = getattr(_LOCAL, 'tid', None)
+            if tid is not None and sched.sync_files:
+                sched._sync_pending[tid] = True
 
     __enter__ = acquire
 
